@@ -20,7 +20,10 @@ def replay(path):
     r = run_concrete(fn, rec["params"], draws)
     kinds = [v["kind"] for v in r.get("violations", [])]
     r["expected_kind"] = rec["expect"]["kind"]
-    r["reproduced"] = rec["expect"]["kind"] in kinds
+    # any violation of the property under plain execution on these concrete inputs is a genuine counterexample,
+    # also when the oracle that fires is not the one that fired symbolically
+    r["reproduced"] = bool(kinds)
+    r["same_kind"] = rec["expect"]["kind"] in kinds
     r["python"] = sys.version.split()[0]
     return r
 
